@@ -132,6 +132,47 @@ def gen_cases(rng, tier):
     # random combinations of all dimensions
     for _ in range(200 if tier == "quick" else 8000):
         yield random_mix(rng)
+    # the correlation product and the shape/status defects through the second public entry point
+    for r_irt, sc, uns, outs in itertools.product(IRT, IRT, (False, True), OUTSTANDING):
+        yield C.as_factory(corr_case(r_irt, [sc], uns, outs, "post"))
+        yield C.as_factory(corr_case(r_irt, [sc], uns, outs, encrypted=True))
+    for _ in range(100 if tier == "quick" else 2000):
+        yield C.as_factory(random_mix(rng))
+    # the forms the allow_unsolicited option may take in a configuration, and what each means
+    for raw, means in (("", False), (None, False), ("false", False), (False, False), (0, False),
+                       ("true", True), (True, True), ("True", True), (1, True)):
+        for r_irt, sc in itertools.product(IRT, IRT):
+            c = corr_case(r_irt, [sc], means, "many", "post")
+            c["cfg"]["allow_unsolicited_raw"] = raw
+            c["tag"] += "/raw=%r" % (raw,)
+            yield c
+    # one response object used twice (factory entry point): a first Response, then the Response under test
+    firsts = [C.base_case(PROP)["resp"]]
+    f2 = C.base_case(PROP)["resp"]
+    f2["in_response_to"] = "req-2"
+    f2["assertions"][0]["subject"]["confs"][0]["data"]["irt"] = "req-2"
+    f3 = C.base_case(PROP)["resp"]
+    f3["status_top"] = RESPONDER
+    f4 = C.base_case(PROP)["resp"]
+    f4["version"] = "1.1"
+    firsts += [f2, f3, f4]
+    for first in firsts:
+        # (allow_unsolicited stays off here: with it on, a Response without a known InResponseTo leaves the came_from of
+        #  the PREVIOUS message on a reused object - observed on the unchanged tree, outside the property, which does not
+        #  constrain the context when unsolicited responses are allowed, and outside documented use of the object)
+        for r_irt, sc, uns in itertools.product(IRT, IRT, (False,)):
+            c = C.as_factory(corr_case(r_irt, [sc], uns, "many", "post"))
+            c["first"] = copy.deepcopy(first)
+            c["tag"] += "/reused"
+            yield c
+        for version, top in itertools.product(("2.0", "1.1", "2.1"), (SUCCESS, RESPONDER, REQUESTER)):
+            c = C.as_factory(C.base_case(PROP))
+            c["env"]["outstanding"] = copy.deepcopy(OUTSTANDING["many"])
+            c["resp"]["version"] = version
+            c["resp"]["status_top"] = top
+            c["first"] = copy.deepcopy(first)
+            c["tag"] = "factory/shape-reused:%s/%s" % (version, top.rsplit(":", 1)[1])
+            yield c
     # cross-dimension stream: every dimension of the SP model varied at once
     for _ in range(150 if tier == "quick" else 4000):
         yield C.random_full(rng, PROP)
